@@ -107,11 +107,11 @@ Definition p_rec := mkTP "rec" HNone false.
      N Named            // named struct field: not entered
      C Cfg              // Cfg has Prefix() = "cfg": implicit prefix
    } *)
-Definition ex_inner :=
-  Sub "inner" false true true [] None
-      [Leaf "B" true [t_wire] KPtr None;
-       Leaf "b" false [t_value "2"] KInt None;
-       Sub "Deep" true true true [] None [Leaf "D" true [mkTag "prop" "k" [("Required", ["false"])]] KString None]].
+Definition ex_inner_fs : comp :=
+  [Leaf "B" true [t_wire] KPtr None;
+   Leaf "b" false [t_value "2"] KInt None;
+   Sub "Deep" true true true [] None [Leaf "D" true [mkTag "prop" "k" [("Required", ["false"])]] KString None]].
+Definition ex_inner := Sub "inner" false true true [] None ex_inner_fs.
 Definition ex_comp : comp :=
   [Leaf "A" true [t_value "1"] KInt None;
    ex_inner;
@@ -147,3 +147,34 @@ Example c11_frame_example :
   writable_at [p_value; p_wire; p_prefix] ex_comp ["U"] = false /\
   writable_at [p_value; p_wire; p_prefix] ex_comp ["F"] = false.
 Proof. repeat split. Qed.
+
+Example c11_scan_exact_example :
+  reaches ex_comp ["inner"; "Deep"; "D"] (Leaf "D" true [mkTag "prop" "k" [("Required", ["false"])]] KString None) /\
+  In (field_of ["inner"; "Deep"; "D"] (Leaf "D" true [mkTag "prop" "k" [("Required", ["false"])]] KString None))
+     (scan_fields ex_comp).
+Proof.
+  split.
+  - eapply reach_in; [right; left; reflexivity|].
+    eapply reach_in; [right; right; left; reflexivity|].
+    exact (reach_self (Leaf "D" true [mkTag "prop" "k" [("Required", ["false"])]] KString None)).
+  - vm_compute. tauto.
+Qed.
+
+Example c11_flatten_properties_example :
+  map pr_obs (properties_of p_value (flatten_all ex_comp)) =
+    [("A", "value", "1", [("Required", [])]); ("D", "value", "${k}", [("Required", ["false"])])] /\
+  map pr_path (properties_of p_value ex_comp) = [["A"]; ["inner"; "Deep"; "D"]] /\
+  map pr_path (properties_of p_value (flatten_all ex_comp)) = [["A"]; ["D"]].
+Proof. repeat split. Qed.
+
+Example c11_frame_untouched_example :
+  reaches ex_comp ["inner"; "b"] (Leaf "b" false [t_value "2"] KInt None) /\
+  ~ In ["inner"; "b"] (footprint [p_value; p_wire; p_prefix; p_rec] ex_comp) /\
+  ~ In ["Ptr"; "P"] (footprint [p_value; p_wire; p_prefix; p_rec] ex_comp).
+Proof.
+  split; [|split].
+  - eapply reach_in; [right; left; reflexivity|].
+    exact (reach_here ex_inner_fs (Leaf "b" false [t_value "2"] KInt None) (or_intror (or_introl eq_refl))).
+  - vm_compute. intuition discriminate.
+  - vm_compute. intuition discriminate.
+Qed.
